@@ -21,13 +21,25 @@ func VerifHarness_SellAllPool_Deliver() {
 		// the commission pool (2,0) is then used at hop 4, not hop 1
 		route = []types.CoinID{verifCoinToken, 4, 5, verifCoinToken, 0}
 	}
+	if verifConfig("route5") == 2 {
+		// a route that comes back to a pool it has already used (token-X twice,
+		// with other hops in between): must be rejected as a duplicate
+		route = []types.CoinID{verifCoinToken, 4, 5, verifCoinToken, 4}
+	}
 	data := SellAllSwapPoolDataV260{Coins: route, MinimumValueToBuy: verifBigNN("minBuy")}
 	tx := verifTx(nonce0+1, verifGasPrice(), field, TypeSellAllSwapPool, data)
 	raw := verifSignBy(tx, 1)
 	resp, before, after := verifDeliverCheckedFee(u, tx, raw, u.A, nonce0, verifCoinToken)
 	if resp.Code == 0 {
 		verifAssert("C15:sell-all-leaves-nothing", after.get("bal.A.2").Sign() == 0)
-		got := new(big.Int).Sub(after.get("bal.A.0"), before.get("bal.A.0"))
+		last := route[len(route)-1]
+		got := new(big.Int).Sub(after.get("bal.A."+last.String()), before.get("bal.A."+last.String()))
 		verifAssert("C15:credited>=minimum", got.Cmp(data.MinimumValueToBuy) >= 0)
+		for i := 0; i+1 < len(route); i++ {
+			for j := i + 1; j+1 < len(route); j++ {
+				same := (route[i] == route[j] && route[i+1] == route[j+1]) || (route[i] == route[j+1] && route[i+1] == route[j])
+				verifAssert("C15:no-pool-twice-in-an-accepted-route", !same)
+			}
+		}
 	}
 }
